@@ -295,7 +295,7 @@ def specificity(args):
     alarms, rows = [], []
     for patch in dirs:
         rid = os.path.basename(os.path.dirname(patch))
-        if args.replay and args.replay not in rid:
+        if args.replay and not re.search(args.replay, rid):  # --replay doubles as a filter (regex on the id)
             continue
         try:
             d = _scratch_repo(patch)
@@ -324,8 +324,17 @@ def specificity(args):
         finally:
             shutil.rmtree(d, ignore_errors=True)
     out = os.path.join(VERIF, "evidence", "selftest-specificity.json")
+    new_rows = [dict(zip(("refactor", "check", "quiet", "seconds"), r)) for r in rows]
+    if args.replay and os.path.exists(out):
+        # a filtered run replaces the rows it re-ran and keeps the others
+        with open(out) as fh:
+            old = json.load(fh)
+        redone = {(r["refactor"], r["check"]) for r in new_rows}
+        new_rows = sorted([r for r in old.get("rows", []) if (r["refactor"], r["check"]) not in redone] + new_rows,
+                          key=lambda r: (r["refactor"], r["check"]))
+        alarms = [f"{r['refactor']}/{r['check']}" for r in new_rows if not r["quiet"]]
     with open(out, "w") as fh:
-        json.dump({"rows": [dict(zip(("refactor", "check", "quiet", "seconds"), r)) for r in rows], "alarms": alarms}, fh, indent=1)
+        json.dump({"rows": new_rows, "alarms": alarms}, fh, indent=1)
         fh.write("\n")
     print(f"[specificity] {len(rows) - len(alarms)} of {len(rows)} quiet; alarms: {alarms}")
     return 0 if not alarms else 2
